@@ -1,8 +1,8 @@
 /-
   LISTING P <cmds> <flags> <z> <script hex> <stack items>                                 plain script session
   LISTING S <cmds> <--tx text hex> <--txin text hex> <select> <flags> <z> <--pretend-valid text hex|->   spend
-  <cmds>: string over {s, r} (step, rewind); `-` for none.  The history ends at the first step that FAILS (as the
-  theorems have it); with a leading `c` it is continued after failed steps (what the debugger allows).
+  <cmds>: string over {s, r} (step, rewind); `-` for none; failed steps do not end the history (a leading `c`,
+  once needed to ask for that, is accepted and ignored).
 
   Answer: `count=<n> list=<line;line;…> trace=<point> <point> …`, one point for the fresh session and one
   after every command: `<cmd><result><seq>/<pc offset>/<script length>/<done>=<marked line>=<echoed line>`
@@ -12,7 +12,8 @@
   spec  voice: `Spec.idealListing` (the execution-order decoding; the redeem script of a P2SH scriptPubKey
                is the one the session actually hands over to) and `Spec.pending` (the operation the next
                step performs), numbered by the number of plan lines already executed; a failed step
-               leaves the session where it was.
+               leaves the session where it was.  After a scriptSig that is not push-only the hand-over to the
+               redeem script cannot happen (BIP16); the section announced for it is then not constrained.
 -/
 import Btcdeb
 import Driver.Run
@@ -66,8 +67,7 @@ def modelTrace (cx : Model.Ctx) (L : List Model.Line) (cont : Bool) : List Char 
       if e.done then modelTrace cx L cont cs e (modelPoint L "s-" false e :: acc)
       else
         let (e', ok) := Model.fnStep cx Glue.tapCtx e
-        let acc' := modelPoint L (if ok then "s+" else "s!") ok e' :: acc
-        if !ok && !cont then acc'.reverse else modelTrace cx L cont cs e' acc'
+        modelTrace cx L cont cs e' (modelPoint L (if ok then "s+" else "s!") ok e' :: acc)
     else
       match Model.instRewind e with
       | some e' => modelTrace cx L cont cs e' (modelPoint L "r+" true e' :: acc)
@@ -86,7 +86,7 @@ def actualRedeem (cx : Model.Ctx) : Nat → Model.IEnv → Option Bytes
   | fuel + 1, e =>
     if e.done then none
     else if e.tce.isNone && e.pc.isEmpty && !e.isP2sh && !e.successor.isEmpty then
-      (if Model.p2shPattern e.see.flags e.successor then some (e.see.stack.getLast?.getD []) else none)
+      (if Model.p2shPattern e.see.flags e.successor && Model.isPushOnly e.see.script then some (e.see.stack.getLast?.getD []) else none)
     else match Model.stepSession cx Glue.tapCtx e with
       | .ok e' => actualRedeem cx fuel e'
       | .error _ => none
@@ -97,7 +97,11 @@ def renderPlan (i : Nat) (l : Spec.PlanLine) : String :=
 /-- what remains to be executed from state `e` -/
 def remainingPlan (r : Bytes) (e : Model.IEnv) : List Spec.PlanLine :=
   if e.done then []
-  else Spec.commitFuture e.tce ++ Spec.planFrom e.see.script.length e.pc.length e.pc ++ Spec.tailFuture r e
+  else Spec.commitFuture e.tce ++ Spec.planFrom e.see.script.length e.pc.length e.pc ++
+    -- after a scriptSig that was not push-only the hand-over to the redeem script cannot happen: the announced
+    -- section stays listed and is never entered
+    (if e.isP2sh && e.sigscriptExecuted && !e.sigscriptPushonly then Spec.handOverP2sh :: Spec.planOf r
+     else Spec.tailFuture r e)
 
 def specPoint (r : Bytes) (total : Nat) (tag : String) (echo : Bool) (e : Model.IEnv) : String :=
   let idx := total - (remainingPlan r e).length
@@ -115,8 +119,7 @@ def specTrace (cx : Model.Ctx) (r : Bytes) (total : Nat) (cont : Bool) : List Ch
         | .ok e' => specTrace cx r total cont cs e' (specPoint r total "s+" true e' :: acc)
         | .error _ =>
           -- nothing has been executed: the session is where it was
-          let acc' := specPoint r total "s!" false e :: acc
-          if !cont then acc'.reverse else specTrace cx r total cont cs e acc'
+          specTrace cx r total cont cs e (specPoint r total "s!" false e :: acc)
     else
       match Model.instRewind e with
       | some e' => specTrace cx r total cont cs e' (specPoint r total "r+" true e' :: acc)
